@@ -30,3 +30,95 @@ Theorem C13_distinct_keeps_every_element : forall v x,
   In x (items_of v) -> existsb (item_eqb x) (items_of (array_distinct_t v)) = true.
 Proof. exact set_distinct_covers. Qed.
 Print Assumptions C13_distinct_keeps_every_element.
+
+(* ---- the byte walkers themselves (SetWalk.v: array_distinct_jsonb / array_intersection_jsonb / array_except_jsonb /
+   array_overlap_jsonb: headers read, arrays walked with ArrayIterator, a document that is not an array is one item --
+   an object as a container entry over the whole buffer, a scalar as its entry word with `&value[8..]` --, items keyed by
+   (JEntry, payload bytes) in a set / count map, survivors pushed raw into an ArrayBuilder and written by build_into):
+   on the encodings of well-formed documents nothing errs or panics and the output is the caller's buffer followed by
+   the encoding of the tree-level result.  The size hypothesis says the result fits an entry word; it holds by itself
+   when the first argument is an array (the result is a sub-multiset of it). *)
+From JB Require Import DispatchProofs SetWalk SetWalkProofs.
+Theorem C13_set_functions_bytes_distinct : forall a buf, wfb a = true -> top_ok a -> wf_size (array_distinct_t a) = true ->
+  array_distinct_w (enc a) buf = Ok (buf ++ enc (array_distinct_t a)).
+Proof. exact array_distinct_w_enc. Qed.
+Print Assumptions C13_set_functions_bytes_distinct.
+Theorem C13_set_functions_bytes_intersection : forall a b buf, wfb a = true -> top_ok a -> wfb b = true -> top_ok b ->
+  wf_size (array_intersection_t a b) = true ->
+  array_intersection_w (enc a) (enc b) buf = Ok (buf ++ enc (array_intersection_t a b)).
+Proof. exact array_intersection_w_enc. Qed.
+Print Assumptions C13_set_functions_bytes_intersection.
+Theorem C13_set_functions_bytes_except : forall a b buf, wfb a = true -> top_ok a -> wfb b = true -> top_ok b ->
+  wf_size (array_except_t a b) = true ->
+  array_except_w (enc a) (enc b) buf = Ok (buf ++ enc (array_except_t a b)).
+Proof. exact array_except_w_enc. Qed.
+Print Assumptions C13_set_functions_bytes_except.
+Theorem C13_set_functions_bytes_overlap : forall a b, wfb a = true -> top_ok a -> wfb b = true -> top_ok b ->
+  array_overlap_w (enc a) (enc b) = Ok (array_overlap_t a b).
+Proof. exact array_overlap_w_enc. Qed.
+Print Assumptions C13_set_functions_bytes_overlap.
+
+(* array arguments: no size hypothesis *)
+Theorem C13_set_functions_bytes_arrays : forall l b buf, wfb (VArr l) = true -> top_ok (VArr l) -> wfb b = true -> top_ok b ->
+  array_distinct_w (enc (VArr l)) buf = Ok (buf ++ enc (array_distinct_t (VArr l))) /\
+  array_intersection_w (enc (VArr l)) (enc b) buf = Ok (buf ++ enc (array_intersection_t (VArr l) b)) /\
+  array_except_w (enc (VArr l)) (enc b) buf = Ok (buf ++ enc (array_except_t (VArr l) b)) /\
+  array_overlap_w (enc (VArr l)) (enc b) = Ok (array_overlap_t (VArr l) b).
+Proof.
+  intros l b buf W T Wb Tb. repeat split.
+  - apply array_distinct_w_arr; assumption.
+  - apply array_intersection_w_arr; assumption.
+  - apply array_except_w_arr; assumption.
+  - apply array_overlap_w_enc; assumption.
+Qed.
+Print Assumptions C13_set_functions_bytes_arrays.
+
+(* every combination of argument forms: an argument is the encoding of the value or a JSON text that parses to it
+   (the code parses and re-encodes a text first) *)
+Theorem C13_set_functions_bytes_all_forms : forall t u a b buf, wfb a = true -> wfb b = true -> stands_for t a -> stands_for u b ->
+  (wf_size (array_distinct_t a) = true -> array_distinct_w t buf = Ok (buf ++ enc (array_distinct_t a))) /\
+  (wf_size (array_intersection_t a b) = true -> array_intersection_w t u buf = Ok (buf ++ enc (array_intersection_t a b))) /\
+  (wf_size (array_except_t a b) = true -> array_except_w t u buf = Ok (buf ++ enc (array_except_t a b))) /\
+  array_overlap_w t u = Ok (array_overlap_t a b).
+Proof.
+  intros t u a b buf Wa Wb Sa Sb. repeat split.
+  - intros H. apply array_distinct_w_forms; assumption.
+  - intros H. apply array_intersection_w_forms; assumption.
+  - intros H. apply array_except_w_forms; assumption.
+  - apply array_overlap_w_forms; assumption.
+Qed.
+Print Assumptions C13_set_functions_bytes_all_forms.
+
+(* the iterator fuel of the model is enough for every buffer, valid or not *)
+Theorem C13_fuel_never_exhausted : forall bs1 bs2 buf,
+  array_distinct_b bs1 buf <> Err EFuel /\ array_intersection_b bs1 bs2 buf <> Err EFuel /\
+  array_except_b bs1 bs2 buf <> Err EFuel /\ array_overlap_b bs1 bs2 <> Err EFuel.
+Proof. exact set_walkers_fuel. Qed.
+Print Assumptions C13_fuel_never_exhausted.
+
+(* "same element" at byte level -- equal (JEntry, payload bytes), the key of the BTreeSet / BTreeMap -- is the identity
+   of SetOps.v, and for well-formed values that is: the same JSON value once both are in decoded form *)
+Theorem C13_byte_identity : forall x y, wfb x = true -> wfb y = true ->
+  (ikey_eqb (key x) (key y) = item_eqb x y) /\ (item_eqb x y = true <-> normalise x = normalise y).
+Proof. intros x y Wx Wy. split; [apply key_bridge; apply WalkProofs.wfb_size; assumption|apply item_identity; assumption]. Qed.
+Print Assumptions C13_byte_identity.
+
+(* not vacuous: duplicates, the number one as UInt64 / Int64 / Float64 (three different elements), nested containers,
+   an object operand *)
+Definition c13_a : value :=
+  VArr [VNum (NUInt 1); VStr [97]; VNum (NInt 1); VNum (NUInt 1); VArr [VNull]; VStr [97]; VObj [([107], VBool true)]; VArr [VNull];
+        VNum (NFloat 4607182418800017408)].
+Definition c13_b : value :=
+  VArr [VStr [97]; VNum (NUInt 1); VNum (NUInt 1); VNum (NUInt 1); VArr [VNull]; VObj [([107], VBool false)]].
+Example C13_bytes_example :
+  wfb c13_a = true /\ wfb c13_b = true /\
+  array_distinct_w (enc c13_a) [255] = Ok (255 :: enc (VArr [VNum (NUInt 1); VStr [97]; VNum (NInt 1); VArr [VNull]; VObj [([107], VBool true)];
+                                                            VNum (NFloat 4607182418800017408)])) /\
+  array_intersection_w (enc c13_a) (enc c13_b) [] = Ok (enc (VArr [VNum (NUInt 1); VStr [97]; VNum (NUInt 1); VArr [VNull]])) /\
+  array_except_w (enc c13_a) (enc c13_b) [] = Ok (enc (VArr [VNum (NInt 1); VStr [97]; VObj [([107], VBool true)]; VArr [VNull];
+                                                            VNum (NFloat 4607182418800017408)])) /\
+  array_overlap_w (enc c13_a) (enc c13_b) = Ok true /\
+  array_overlap_w (enc (VObj [([107], VBool true)])) (enc c13_a) = Ok true /\
+  array_intersection_w (enc (VNum (NInt 1))) (enc c13_a) [] = Ok (enc (VArr [VNum (NInt 1)])) /\
+  array_except_w (enc (VObj [([107], VBool true)])) (enc c13_b) [] = Ok (enc (VArr [VObj [([107], VBool true)]])).
+Proof. vm_compute. repeat split; reflexivity. Qed.
